@@ -227,8 +227,20 @@ func forwardCase(in ref.Instr, xs []*ref.T, exact bool) string {
 	if e := rt.Compare(got, want, 0, rel, nil, 0); e != nil {
 		return e.Error()
 	}
+	if dataMovement[in.Op] { // these operations copy elements: the sign of a zero travels with it
+		if g, err := rt.Read(got); err == nil {
+			for i, v := range g.Data {
+				if v == 0 && want.Data[i] == 0 && math.Signbit(v) != math.Signbit(want.Data[i]) {
+					return fmt.Sprintf("element %v: got %v, expected %v (the sign of a zero was lost)", ref.Unravel(i, want.Shape), v, want.Data[i])
+				}
+			}
+		}
+	}
 	return ""
 }
+
+var dataMovement = map[string]bool{"slice": true, "patch": true, "concat": true, "transpose": true, "reshape": true,
+	"unsqueeze": true, "squeeze": true, "flatten": true, "broadcast": true}
 
 type fcase struct {
 	In  ref.Instr `json:"instr"`
@@ -274,4 +286,10 @@ func argGuard(ts ...tensor.Tensor) func() string {
 		}
 		return ""
 	}
+}
+
+// coinLeaf builds an operand that is tracked or not by a coin derived from its values (a case replays identically):
+// forward values must not depend on tracking.
+func coinLeaf(x *ref.T) tensor.Tensor {
+	return rt.MustLeaf(x, len(x.Data) > 0 && (math.Float64bits(x.Data[0])>>3)&1 == 1)
 }
